@@ -137,6 +137,37 @@ def gen_streams(chk, consts):
         yield "long", [Q(rng.randint(-9, 9)) for _ in range(n)]
 
 
+def numeric_type_fails(rng):
+    """streams of NumPy scalars of several dtypes (also unsigned and narrow ones): the trackers must report the statistics of the
+    NUMBERS, whatever their type (tolerance by dtype for float32 arithmetic)"""
+    import numpy as np
+    from ixai.utils.tracker import WelfordTracker, ExponentialSmoothingTracker
+    for name, conv, tol in (("np.uint8", np.uint8, 1e-12), ("np.uint16", np.uint16, 1e-12), ("np.int8", np.int8, 1e-12), ("np.int64", np.int64, 1e-12),
+                            ("np.float32", np.float32, 1e-4), ("np.float64", np.float64, 1e-12), ("bool", bool, 1e-12), ("int", int, 1e-12)):
+        for rep in range(4):
+            raw = [rng.randint(0, 1) for _ in range(6)] if conv is bool else [rng.randint(0, 120) for _ in range(rng.randint(2, 7))]
+            if rep == 0 and conv is not bool:
+                raw = [200 % 128 if conv is np.int8 else 200, 10, 3]       # a large value followed by smaller ones (unsigned wrap-around)
+            vs = [conv(v) for v in raw]
+            n = len(raw)
+            m = sum(raw) / n
+            var = sum((v - m) ** 2 for v in raw) / n
+            with np.errstate(all="ignore"):
+                w = WelfordTracker()
+                for v in vs:
+                    w.update(v)
+                e = ExponentialSmoothingTracker(0.5)
+                for v in vs:
+                    e.update(v)
+            es = sum(0.5 * 0.5 ** (n - 1 - i) * v for i, v in enumerate(raw))
+            for label, got, want in (("Welford mean", float(w.mean), m), ("Welford var", float(w.var), var), ("smoothed value", float(e.get()), es)):
+                if not abs(got - want) <= tol * max(1.0, abs(want)):
+                    return f"{label} of the {name} stream {raw} is {got}, the numbers have {want}"
+            if w.N != n or e.N != n:
+                return f"update count {w.N}/{e.N} for a {name} stream of {n} values"
+    return None
+
+
 def run(tier="quick", seed=0, replay=None):
     chk = core.Check("C10", tier, seed, "proof")
     chk.rule = ("streams: all over {-2..2} up to length 4 (quick) / 5 (thorough); random rationals (mixture of small, "
@@ -179,6 +210,13 @@ def run(tier="quick", seed=0, replay=None):
             expect.append(("welford", None, vs))
             reqs.append({"op": "es", "alpha": rs(a), "vs": [rs(v) for v in vs]})
             expect.append(("es", a, vs))
+    chk.case({"numeric_type_sweep": ["np.uint8", "np.uint16", "np.int8", "np.int64", "np.float32", "np.float64", "bool", "int"]}, nontrivial=True, sample=False)
+    try:
+        f = numeric_type_fails(chk.rng)
+    except Exception as ex:
+        f = f"raised {core.err_kind(ex)}: {ex}"
+    if f:
+        chk.violation("numeric-type", f"trackers on NumPy-typed inputs: {f}", {"tracker": "welford", "vs": []})
     # ---- compare generated model with implementation
     if reqs:
         try:
